@@ -93,6 +93,10 @@ func paramSchema(p ParamSpec) M {
 		s = M{"type": "integer", "maximum": 5000000.0}
 	case "string":
 		s = M{"type": "string", "minLength": 1.0}
+	case "branchdefault":
+		// a default inside an alternative is the default of that alternative's values, not of the parameter:
+		// an absent parameter stays absent
+		return M{"oneOf": []any{M{"type": "integer", "default": 10.0, "maximum": 5000000.0}, M{"type": "boolean"}}}
 	case "anyof":
 		// alternatives none of which reads arbitrary text
 		s = M{"anyOf": []any{M{"type": "integer", "maximum": 5000000.0}, M{"type": "boolean"}}}
@@ -310,7 +314,7 @@ func newRequest(c Case) *http.Request {
 		}
 		var v any
 		switch p.Kind {
-		case "integer", "anyof":
+		case "integer", "anyof", "branchdefault":
 			v = 9.0
 		case "string":
 			v = "sent"
@@ -670,12 +674,15 @@ func gen(t *rapid.T) Case {
 	seen := map[string]bool{}
 	for i := 0; i < n; i++ {
 		p := ParamSpec{In: rapid.SampledFrom([]string{"query", "query", "header", "cookie"}).Draw(t, "in"), Name: rapid.SampledFrom([]string{"pa", "pb", "pc", "X-D"}).Draw(t, "name"),
-			Kind: rapid.SampledFrom([]string{"integer", "string", "array", "anyof"}).Draw(t, "kind"), Present: rapid.Bool().Draw(t, "present"), HasDef: rapid.IntRange(0, 3).Draw(t, "hasdef") > 0, PathLevel: rapid.IntRange(0, 2).Draw(t, "pathlevel") == 0}
+			Kind: rapid.SampledFrom([]string{"integer", "string", "array", "anyof", "branchdefault"}).Draw(t, "kind"), Present: rapid.Bool().Draw(t, "present"), HasDef: rapid.IntRange(0, 3).Draw(t, "hasdef") > 0, PathLevel: rapid.IntRange(0, 2).Draw(t, "pathlevel") == 0}
 		if p.In == "query" || p.In == "header" {
 			p.Explode = rapid.SampledFrom([]string{"", "true", "false"}).Draw(t, "explode")
 		}
 		if p.In == "cookie" {
 			p.Explode = "false" // the cookie default explode=true cannot carry arrays (C05 finding)
+		}
+		if p.Kind == "branchdefault" {
+			p.HasDef = false // none that applies to the parameter
 		}
 		if p.Present && (p.Kind == "integer" || p.Kind == "anyof") && rapid.IntRange(0, 4).Draw(t, "garbage") == 0 {
 			p.Garbage = true
